@@ -31,7 +31,9 @@ CODES = {1: 'model Utils.storage_slots_used differs from utils::storage_slots_us
 PCODES = {1: 'model Opt_pack.pack_storage_variables_optimization differs from the implementation',
           2: 'model Opt_pack.pack_struct_variables_optimization differs from the implementation',
           3: 'pack_storage_variables: a verdict violates the property, or a reported location is not a top-level contract',
-          4: 'pack_struct_variables: a verdict violates the property, or a reported location is not a struct definition'}
+          4: 'pack_struct_variables: a verdict violates the property, or a reported location is not a struct definition',
+          5: 'analyze_for_optimization(pack_storage_variables) does not report the lines on which the contracts with the verdict "can be packed" begin',
+          6: 'analyze_for_optimization(pack_struct_variables) does not report the lines on which the structs with the verdict "can be packed" begin'}
 SPEC_CODES = {2, 5, 6}
 
 
@@ -394,7 +396,21 @@ def eval_programs(ctx, progs, name):
         it = r['det'].get('pack_struct_variables')
         exprs.append(['check_pack p%d %s %s' % (p['j'], opt_pairs(ic), opt_pairs(it)), 'stats_pack p%d' % p['j']])
     vals = ps.coq_eval(exprs, 'Lift Pt Walk Cases Utils Opt_pack PackCases', 'c10')
-    return ps, [(p, r, v[0], v[1]) for p, r, v in zip(ps.progs, impl, vals)]
+    out = []
+    for p, r, v in zip(ps.progs, impl, vals):
+        codes = list(v[0])
+        # what the user of analyze_for_optimization sees: the lines on which the reported declarations begin (the detector
+        # results above are obtained from the tree; the entry point parses the text itself and looks the lines up)
+        b = p['src'].encode('utf-8')
+        for k, n in ((5, 'pack_storage_variables'), (6, 'pack_struct_variables')):
+            d, ls = r['det'].get(n), r['lines'].get(n)
+            if d in (None, 'PANIC') or ls is None or r.get('hang') is not None:
+                continue
+            want = sorted(set(1 + b[:st].count(b'\n') for st, en in d))
+            if ls == 'PANIC' or ls != want:
+                codes.append(k)
+        out.append((p, r, codes, v[1]))
+    return ps, out
 
 
 # ------------------------------------------------------------------ run
@@ -441,7 +457,7 @@ def run(rep, ctx):
         small = common.shrink(p['src'], still)
         _, o = eval_programs(ctx, [{'gen': 'min', 'src': small}], 'c10-shrink')
         pp, rr, cc, ss = o[0]
-        is_spec = bool({3, 4} & set(cc))
+        is_spec = bool({3, 4, 5, 6} & set(cc))
         rep.violation('; '.join(PCODES[x] for x in cc),
                       {'kind': 'S' if is_spec else 'M', 'input': {'program': small}, 'original_gen': p['gen'], 'failed_subchecks': cc,
                        'impl_pack_storage_variables': rr['det'].get('pack_storage_variables'),
